@@ -77,6 +77,7 @@ def run_c19(run, tier, wd, binary, replay):
 
 def run_check(prop, tier, replay=None):
     run = vlib.Run(prop, tier, "model_checking")
+    run.write_evidence = replay is None
     wd = vlib.scratch_dir(prop)
     try:
         binary = vlib.build_harness(wd)
@@ -208,7 +209,11 @@ def run_c18(run, tier, wd, binary, replay):
     cases = [dict(kind="expr", text=e["text"], cfg=e["cfg"], val=e["val"]) for e in exprs]
     cases += vl.validate_cases(rng, 300 if tier == "quick" else 5000)
     if replay:
-        cases = [json.load(open(replay))["replay"]["case"]]
+        rec = json.load(open(replay))["replay"]["record"]
+        if rec["kind"] == "expr":
+            cases = [dict(kind="expr", text=rec["text"], cfg=rec["cfg"], val=rec["want"])]
+        else:
+            cases = [dict(kind="validate", val=rec["x"], cons=rec["cons"])]
     vlib.write_ndjson(os.path.join(bd, "in.ndjson"), cases)
     p = vlib.run_harness(binary, ["values", "-in", "in.ndjson", "-out", "vt.ndjson"], cwd=bd, timeout=1800)
     if p.returncode != 0:
@@ -219,7 +224,7 @@ def run_c18(run, tier, wd, binary, replay):
                   if rec["kind"] == "expr" else ("value %s with constraints %s: ok=%s" % (rec.get("x"), rec.get("cons"), rec.get("ok"))), chunk=5000)
     for c in cases:
         run.count_case(c, c["kind"] == "validate" or "${" in c.get("text", ""))
-    run.sample(json.loads(lines[7]))
+    run.sample(json.loads(lines[min(7, len(lines) - 1)]))
     run.sample(json.loads(lines[-1]))
     run.cov["rule"] = ("expression cases = every tree up to depth 2 over + - * > == && ||, literals 0..3 / true / false and placeholders ${a} ${b} x 3 "
                        "configurations, exported by TLC with the value TLA+ computes (ill-typed ones: error); validation cases = every value 0..3 x every "
